@@ -18,6 +18,7 @@ import Driver.Prestate
 import Driver.Bundle
 import Driver.Util
 import Driver.EvmLifecycle
+import Driver.TxValidate
 /-! Line-protocol driver: one request per line on stdin, one reply per line on stdout.
 Stateless components are dispatched on the first token. A stateful component `X` adds a field
 `x : Driver.X.St := Driver.X.St.init` to `DState`, resets it on `begin x …` and threads it through
@@ -35,6 +36,7 @@ structure DState where
   prestate : Prestate.St := {}
   bundle : Driver.Bundle.St := Driver.Bundle.St.init
   lc : Driver.EvmLifecycle.St := Driver.EvmLifecycle.St.init
+  txv : Driver.TxValidate.St := {}
   -- stateful component states go here
 
 def step (st : DState) (line : String) : DState × String :=
@@ -68,6 +70,9 @@ def step (st : DState) (line : String) : DState × String :=
   | "bundle" :: r => let (b, out) := Bundle.handle st.bundle r; ({ st with bundle := b }, out)
   | "begin" :: "lc" :: r => let (s, out) := Driver.EvmLifecycle.begin r; ({ st with lc := s }, out)
   | "lc" :: r => let (s, out) := Driver.EvmLifecycle.handle st.lc r; ({ st with lc := s }, out)
+  | "txv" :: r => (st, TxValidate.handle r)
+  | "begin" :: "noeff" :: r => let (s, out) := TxValidate.handleBegin r; ({ st with txv := s }, out)
+  | "ne" :: r => let (s, out) := TxValidate.handleNe st.txv r; ({ st with txv := s }, out)
   | _ => (st, "bad-op")
 
 partial def loop (hin hout : IO.FS.Stream) (st : DState) : IO Unit := do
